@@ -41,11 +41,93 @@ def holdsBridge (srcReads tgtReads : List ReadEv) (o : BridgeObs) : Bool :=
   o.returned && o.srcClosed && o.tgtClosed && o.removed &&
   o.sent == o.toTarget.length && o.received == o.toSource.length
 
+/-- A direction whose scripts contain no fault: no fatal read, no cancellation, and every write of the
+receiving end accepts everything without error and without blocking. -/
+def faultFreeDir (reads : List ReadEv) (writes : List WriteEv) : Bool :=
+  reads.all (fun ev => !ev.cancelled && ev.err != some .fatal) &&
+  writes.all (fun w => !w.err && !w.block && decide (maxRead reads ≤ w.accept))
+
+/-- "…is all of it if neither end closed early": when neither end's script contains a fault, the
+bridge never ends by itself — if it ended, one end reached its end-of-stream (and by the clauses of
+`holdsBridge` everything that end had sent was delivered). -/
+def holdsNoSpontaneousClose (srcReads tgtReads : List ReadEv) (srcWrites tgtWrites : List WriteEv)
+    (o : BridgeObs) : Bool :=
+  if faultFreeDir srcReads tgtWrites && faultFreeDir tgtReads srcWrites then
+    (if o.returned then o.s2tEof || o.t2sEof else true)
+  else true
+
 /-- The model's observation of a finished bridge. -/
 def Bridge.obs (b : Bridge) : BridgeObs :=
   { toTarget := b.s2t.st.delivered, toSource := b.t2s.st.delivered,
     s2tEof := b.s2t.stop == some .eof, t2sEof := b.t2s.stop == some .eof,
     returned := b.finished, srcClosed := b.closed, tgtClosed := b.closed, removed := b.removed,
     sent := b.s2t.st.counter, received := b.t2s.st.counter }
+
+/-! ### Re-attached source connections -/
+
+/-- Observation of a bridge run whose source end re-attached. -/
+structure ReattachObs where
+  toTarget : Bytes            -- bytes the target end received
+  perSource : List Bytes      -- bytes each source connection received, in the order the connections attached
+  returned : Bool
+  curSrcClosed : Bool         -- the source connection installed last is closed
+  tgtClosed : Bool
+  removed : Bool
+  sent : Nat
+  received : Nat
+deriving DecidableEq, Repr
+
+/-- `bs` is a concatenation of one prefix of each `d ∈ ds`, in order. -/
+def matchGens : List Bytes → Bytes → Bool
+  | [], bs => bs.isEmpty
+  | d :: ds, bs => (List.range (d.length + 1)).any (fun k => (d.take k).isPrefixOf bs && matchGens ds (bs.drop k))
+
+/-- No fault in any source connection's script and every connection is replaced only after its
+script has been read to the end… -/
+def gensClean (gens : List SrcGen) : Bool :=
+  gens.all (fun g => cleanReadsB g.reads && decide (g.attachAt ≤ g.reads.length))
+
+/-- Expected bytes per source connection: group `i` of the fired target events is written to
+connection `i`; padded with empty entries for connections that never became current. -/
+def expectedPerSource (ds : List Nat) (tgt : List ReadEv) (n : Nat) : List Bytes :=
+  let g := (splitFired ds tgt).map allData
+  (g ++ List.replicate (n - g.length) []).take n
+
+/-- Index of the source connection installed last: one per reached pause that is not the last connection's. -/
+def currentIdx (ds : List Nat) (n : Nat) : Nat := min ds.length (n - 1)
+
+/-- Per-connection clause: every connection other than the current one received exactly the bytes
+that fired while it was installed; the current one received at least those. -/
+def perSourceOk (cur : Nat) : Nat → List Bytes → List Bytes → Bool
+  | _, [], [] => true
+  | i, e :: es, o :: os => (if i == cur then e.isPrefixOf o else o == e) && perSourceOk cur (i + 1) es os
+  | _, _, _ => false
+
+/-- The property on a run with re-attachment.  `ds` = the model's pause thresholds. -/
+def holdsReattach (gens : List SrcGen) (tgt : List ReadEv) (ds : List Nat) (o : ReattachObs) : Bool :=
+  matchGens (gens.map (fun g => allData g.reads)) o.toTarget &&
+  (if gensClean gens then o.toTarget == (gens.map (fun g => allData g.reads)).flatten else true) &&
+  o.perSource.flatten.isPrefixOf (allData tgt) &&
+  (if cleanReadsB tgt then perSourceOk (currentIdx ds gens.length) 0 (expectedPerSource ds tgt gens.length) o.perSource
+   else o.perSource.length == gens.length) &&
+  o.returned && o.curSrcClosed && o.tgtClosed && o.removed &&
+  o.sent == o.toTarget.length && o.received == o.perSource.flatten.length
+
+/-- The same without the per-connection clause (free-running runs: which connection a byte of the
+target is written to depends on the schedule; the concatenation in attach order does not). -/
+def holdsReattachFree (gens : List SrcGen) (tgt : List ReadEv) (o : ReattachObs) : Bool :=
+  matchGens (gens.map (fun g => allData g.reads)) o.toTarget &&
+  (if gensClean gens then o.toTarget == (gens.map (fun g => allData g.reads)).flatten else true) &&
+  o.perSource.flatten.isPrefixOf (allData tgt) && o.perSource.length == gens.length &&
+  o.returned && o.curSrcClosed && o.tgtClosed && o.removed &&
+  o.sent == o.toTarget.length && o.received == o.perSource.flatten.length
+
+/-- The model's observation of a finished run with re-attachment (target accepts everything). -/
+def reattachObs (l : Limiter) (gens : List SrcGen) (tgt : List ReadEv) : ReattachObs :=
+  { toTarget := (sourceLoop l gens [] {}).1.delivered,
+    perSource := expectedPerSource (pausePoints l gens [] {}) tgt gens.length,
+    returned := true, curSrcClosed := true, tgtClosed := true, removed := true,
+    sent := (sourceLoop l gens [] {}).1.counter,
+    received := (expectedPerSource (pausePoints l gens [] {}) tgt gens.length).flatten.length }
 
 end Tunnox.C02
